@@ -825,7 +825,18 @@ def hostile_store():
         steps.append(step_add(ev(i % 3, 1, 300 + i, [[n, "v"]], content="n%d" % i)))
     steps.append(step_add(ev(0, 1, 400, [["t"]], content="bare")))
     steps.append(step_add(ev(0, 1, 401, [["t", ""]], content="empty")))
+    # long tag values (an index that truncates them must not make their prefixes match)
+    for i, n in enumerate(LONG_LENGTHS):
+        steps.append(step_add(ev(i % 3, 1, 410 + i, [["t", "L" * n]], content="long%d" % n)))
+    # events at the far end of the timestamp range (a since / until that is clamped or dropped must not return them)
+    for i, ts2 in enumerate(FAR_TIMES):
+        steps.append(step_add(ev(i % 3, 1, ts2, [["t", "far"]], content="far%d" % i)))
     return steps
+
+
+LONG_LENGTHS = [255, 256, 1023, 1024, 1025, 1500, 4000]
+FAR_TIMES = [2145934798, 2145934799, 2147483647, 2147483648, 4294967295, 4294967296]
+HEX_TAILS = ["' OR 1=1 OR '", "' OR 1=1) OR ('", "%", "_", "'", "\\", "0", "g", " ", "\x00", "--", ")"]
 
 
 def hostile_reqs(tier):
@@ -849,6 +860,22 @@ def hostile_reqs(tier):
               {"unknown": "'x", "kinds": [1]}, {"tags": [["t", ["x"]]], "kinds": [1]}, {"#tt": ["x"], "kinds": [1]}, {"#t": "x", "kinds": [1]},
               {}, {"search": "' OR 1=1"}, {"kinds": []}, {"ids": []}, {"authors": []}):
         reqs.append([f])
+    # ids / authors that start with 64 hex digits and carry a tail; prefixes and extensions of stored long tag values;
+    # since / until at and beyond the upper bound of the timestamp range
+    for tail in HEX_TAILS:
+        for base in ("ab" * 32, "ab" * 31 + "a", env.PUBS[0]):
+            reqs.append([{"ids": [base + tail]}])
+            reqs.append([{"ids": [base + tail], "kinds": [1]}])
+            reqs.append([{"authors": [base + tail]}])
+            reqs.append([{"authors": [base + tail], "kinds": [1]}])
+    for n in LONG_LENGTHS:
+        for m in (n - 1, n, n + 1):
+            reqs.append([{"#t": ["L" * m]}])
+    reqs.append([{"#t": ["L" * 1024, "L" * 4000]}])
+    for b in (2145934798, 2145934799, 2145934800, 2147483647, 2147483648, 4294967295, 4294967296, 2 ** 63, 1700000000000):
+        reqs.append([{"since": b, "kinds": [1]}])
+        reqs.append([{"until": b, "kinds": [1]}])
+        reqs.append([{"since": b, "#t": ["far"]}])
     if tier == "thorough":
         for a, b in itertools.product(HOSTILE[:24], HOSTILE[24:]):
             reqs.append([{"#t": [a, b]}])
